@@ -41,7 +41,11 @@ MANIFEST = dict(
          "Accept-Encoding value (token list with weights, any optional white space) the chosen coding is allowed by "
          "deflate.allowed-encodings and explicitly listed with non-zero weight, none is chosen only if no allowed "
          "coding is so listed, first allowed entry wins; for arbitrary bytes the label occurs literally with a weight "
-         "that is not zero. (headers) if any variant of a response is coded then EVERY variant - the identity one "
+         "that is not zero; the Accept-Encoding scan is ALSO modelled as the C pointer loop it is (token scan, memcmp "
+         "ladder, parameter loop with the q=0 look-ahead pointer, accept_encoding |= enc; fuel = remaining length) and "
+         "proved equal to the specification-style scanner on every byte string (c19_scan_loop_refines), so the "
+         "negotiation theorems hold of the loop (c19_negotiation_rfc_loop); the selection loop over "
+         "allowed_encodings stays `find?` + label priority. (headers) if any variant of a response is coded then EVERY variant - the identity one "
          "included - carries Vary: Accept-Encoding; the coded ETag is a well-formed entity-tag distinct from the "
          "identity one and per coding; revalidation with it gives 304 (412 unsafe methods). (stream assembly) for "
          "every chunk layout, buffer size, read split and schedule of zlib answers the codec is handed exactly the "
@@ -54,7 +58,9 @@ MANIFEST = dict(
          "every coded body with Python zlib. MIME / size / status gates, Content-Encoding / Content-Length "
          "handling and cache eligibility are correspondence-only (rs stream).",
     note="partial: zlib is external. Every theorem is over the hand-written model; the model is tied to the C by "
-         "in-process differentials of the real static functions (ae, rs, rs-revalidate, cache with interposed "
+         "in-process differentials of the real static functions (ae, sc = accept_encoding bit set of the scan loop "
+         "read through three single-bit allowed lists vs the loop model, with an RFC 9110 two-sided oracle, rs, "
+         "rs-revalidate, cache with interposed "
          "write/rename/open/getpid and process death by longjmp, names, zs = trace validation of every deflate() / "
          "pread() / append call) and an end-to-end stream (matrix, modification histories, strace faults). "
          "Assumptions: the validator (ETag = 32-bit linear hash of inode,size,mtime-ns) distinguishes source versions; "
@@ -70,7 +76,8 @@ MANIFEST = dict(
     ref="6/C19")
 
 LEVEL = "proof"
-EXPLANATION = ("claimed partial: proof for negotiation (against an RFC 9110 list specification), Vary on all variants, "
+EXPLANATION = ("claimed partial: proof for negotiation (against an RFC 9110 list specification; the scan also as the C "
+               "pointer loop, proved equal to the specification-style scanner for all byte strings), Vary on all variants, "
                "ETag, revalidation, stream assembly around the codec and the cache protocol over the model; the codec "
                "itself (zlib output = RFC container of a raw DEFLATE stream that round-trips) is a hypothesis of the "
                "_partial theorems, validated with an independent decoder on every coded body (in-process and "
@@ -464,6 +471,71 @@ def classify_ae(line, out):
     cls = ("q0" if b"q=0" in h.lower() else "q" if b"q=" in h.lower() else "plain") + \
           ("+sp" if b" " in h else "") + ("+multi" if b"," in h else "")
     return "ae:%s:%s:%s" % (ALLOWED.index(t[1]) if t[1] in ALLOWED else "x", cls, out)
+
+
+# ---- stream 1b: the scan loop itself (accept_encoding bit set), model = Scan.scanC (C pointer loop as it is)
+SC_ALPHA = [b"q", b"=", b"0", b".", b";", b",", b" ", b"Q"]
+
+
+def gen_sc(ctx):
+    import itertools
+    rng = ctx.rng
+    vals = []
+    for n in range(0, 4):                                   # every sequence of <= 3 atoms
+        for t in itertools.product(ATOMS, repeat=n):
+            vals.append(b"".join(t))
+    n_ex = len(vals)
+    nb = 5 if ctx.quick else 6                              # every parameter text <= nb behind a coding
+    for n in range(1, nb + 1):
+        for t in itertools.product(SC_ALPHA, repeat=n):
+            tail = b"".join(t)
+            vals.append(rng.choice((b"gzip", b"deflate", b"x-gzip")) + tail)
+    n_par = len(vals) - n_ex
+    nrand = 40000 if ctx.quick else 400000
+    for i in range(nrand):
+        v = gen_ae_value(rng)
+        if i % 3 == 0:
+            v = mutate(rng, v)
+        if i % 50 == 0:                                     # embedded NUL: the C string ends there
+            k = rng.randint(0, len(v))
+            v = v[:k] + b"\0" + v[k:]
+        vals.append(v)
+    ctx.dist["sc:exhaustive-atom-sequences<=3"] = n_ex
+    ctx.dist["sc:exhaustive-parameter-texts<=%d" % nb] = n_par
+    ctx.dist["sc:grammar+mutation"] = nrand
+    ctx.dist["sc:rfc-conforming"] = sum(1 for v in vals if rfc_accept_encoding(v.split(b"\0")[0]) is not None)
+    ctx.dist["sc:with-zero-weight"] = sum(1 for v in vals if b"q=0" in v.lower())
+    ctx.dist["sc:with-NUL"] = sum(1 for v in vals if b"\0" in v)
+    return ["sc " + HX(v) for v in vals]
+
+
+def oracle_sc(line, out):
+    """independent: for a value matching the RFC 9110 12.5.3 grammar the bit of a coding is set exactly when
+    some element lists it with a non-zero weight; for any value a set bit needs the label in the value"""
+    if out == "bad-op":
+        return None
+    if len(out) != 3 or any(ch not in "01" for ch in out):
+        return "mod_deflate_choose_encoding returned a label that does not belong to the single allowed bit"
+    v = C.unhx(line.split(" ")[1]).split(b"\0")[0]
+    parsed = rfc_accept_encoding(v)
+    for i, lab in enumerate(LABELS):
+        got = out[i] == "1"
+        if got and lab not in v:
+            return "scan loop accepted %s which the value does not contain" % lab.decode()
+        if parsed is not None:
+            want = any(c == lab and q > 0 for c, q in parsed)
+            if got != want:
+                return ("scan loop %s %s although the client %s" %
+                        ("accepted" if got else "refused", lab.decode(),
+                         "listed it with a non-zero weight" if want else "did not list it / weighted it q=0"))
+    return None
+
+
+def classify_sc(line, out):
+    h = C.unhx(line.split(" ")[1])
+    cls = ("q0" if b"q=0" in h.lower() else "q" if b"q=" in h.lower() else "plain") + \
+          ("+sp" if (b" " in h or b"\t" in h) else "") + ("+multi" if b"," in h else "") + ("+nul" if b"\0" in h else "")
+    return "sc:%s:%s:%s" % (cls, "rfc" if rfc_accept_encoding(h.split(b"\0")[0]) is not None else "free", out)
 
 
 # =====================================================================================
@@ -1832,6 +1904,7 @@ def run_inproc(ctx):
         ctx.broken.append({"kind": "harness-build", "names": ["h_deflate"], "log": err[-3000:]})
         return
     ctx.differential("ae(h_deflate)", [exe], "deflate", gen_ae(ctx), oracle_ae, classify_ae, canon=canon)
+    ctx.differential("sc(h_deflate)", [exe], "deflate", gen_sc(ctx), oracle_sc, classify_sc, canon=canon)
     rs = gen_rs(ctx)
     ctx.differential("rs(h_deflate)", [exe], "deflate", rs, oracle_rs, classify_rs, canon=canon)
     # revalidation: needs the ETag each coded response carried
@@ -1872,7 +1945,7 @@ def run(ctx):
 
 def replay_line(ctx, rep):
     line = rep.get("input")
-    if rep.get("scenario") or not isinstance(line, str) or line.split(" ")[0] not in ("ae", "rs", "cache", "name", "zs"):
+    if rep.get("scenario") or not isinstance(line, str) or line.split(" ")[0] not in ("ae", "sc", "rs", "cache", "name", "zs"):
         return replay_e2e(ctx, rep)
     exe, err = C.build_harness("h_deflate")
     o, rc, e = C.run_lines([exe], [line])
@@ -1880,7 +1953,7 @@ def replay_line(ctx, rep):
     print("input:", line[:2000])
     print("impl :", [canon(x) for x in o][:1], rc)
     print("model:", [canon(x) for x in m][:1])
-    orc = {"ae": oracle_ae, "rs": oracle_rs, "cache": oracle_cache, "name": oracle_names,
+    orc = {"ae": oracle_ae, "sc": oracle_sc, "rs": oracle_rs, "cache": oracle_cache, "name": oracle_names,
            "zs": oracle_zs}[line.split(" ")[0]]
     v = orc(line, canon(o[0])) if (o and rc == 0) else "crash / sanitizer report"
     if not v and line.startswith("rs ") and rep.get("correspondence", "").startswith("rs-revalidate"):
